@@ -309,8 +309,8 @@ func rulesC19(c *Ctx) {
 		for _, r := range tw.Returns() {
 			if len(r.Results) == 1 && isNamedType(tw.TypeOf(r.Results[0]), modPath+"/"+pJ, "WireError") {
 				// the value returned unchanged is the type-asserted parameter
-				if v := tw.ObjOf(r.Results[0]); v != nil && v == typeAssertVar(tw, pJ, "WireError") {
-					keepsSelf = true
+				if v := tw.ObjOf(r.Results[0]); v != nil && (v == typeAssertVar(tw, pJ, "WireError") || tw.isTypeSwitchVar(v)) {
+					keepsSelf = true // (in `switch e := err.(type) { case *WireError: return e }` the clause's e is the asserted value)
 				}
 			}
 		}
